@@ -238,6 +238,15 @@ def run(chk):
     ok = any(isinstance(n, ast.For) and is_self_attr(n.iter, "pending") and any(isinstance(c, ast.Call) and last_attr(c.func) == "send" for c in ast.walk(n))
              and not any(isinstance(b, (ast.Break, ast.Return, ast.If, ast.Continue)) for b in ast.walk(n)) for n in walk_body(sap))
     chk.ob("O12.1c", "send_all_pending sends every pending start message", ok, sap, "unconditional loop over self.pending with send")
+    # ... exactly once: a later convention notification (another daemon joining) reaches send_all_pending again, so the list must be empty by then
+    gsap = cfg_of(sap)
+    sloops = [n for n in walk_body(sap) if isinstance(n, ast.For) and is_self_attr(n.iter, "pending")]
+    resets = [n for n in walk_body(sap) if (isinstance(n, ast.Assign) and any(is_self_attr(t, "pending") for t in n.targets) and isinstance(n.value, (ast.List, ast.Tuple)) and not n.value.elts)
+              or (isinstance(n, ast.Expr) and isinstance(n.value, ast.Call) and u(n.value.func) == "self.pending.clear")]
+    ok = bool(sloops) and bool(resets) and gsap.must_pass(gsap.node_of(sloops[0]), [gsap.node_of(r) for r in resets], normal_only=True)
+    chk.ob("O12.1c", "the pending list is emptied once its messages were sent (no host is started twice)", ok, resets[0] if resets else sap,
+           "" if ok else "send_all_pending can return with the sent messages still parked: the next convention notification re-sends every StartNodes",
+           key=f"{_M}:Dispatcher.send_all_pending:reset")
 
     # ---- O12.2 external bypass ---------------------------------------------------------------------------
     chk.rule("O12.2", "on the externally-provisioned edge of start and of stop no actor is created and no StartEngine/StartNodes/StopNodes is sent; create() raises for external", 3,
@@ -269,6 +278,25 @@ def run(chk):
                                 seen.add(id(callee))
                                 stack.extend(callee.body)
             chk.ob("O12.2", f"{hname}: external arm creates/starts/stops nothing", not bad and bool(arm), i, f"reaches {bad}" if bad else "no createActor / StartNodes / StopNodes reachable")
+    # the flag consulted at stop time is the one of the CURRENT StartEngine: assigned from the message on every path that reaches the branch (an actor may be reused)
+    seh = MA.methods.get("receiveMsg_StartEngine")
+    sth = MA.methods.get("receiveMsg_StopEngine")
+    flag_reads = [n for n in walk_body(sth) if is_self_attr(n) and "extern" in n.attr and isinstance(n.ctx, ast.Load)] if sth is not None else []
+    if seh is not None and flag_reads:
+        fl = flag_reads[0].attr
+        mp = params_of(seh)[1]
+        writes = [n for f_ in MA.methods.values() for n in walk_body(f_) if isinstance(n, (ast.Assign, ast.AugAssign)) and any(is_self_attr(t, fl) for t in (n.targets if isinstance(n, ast.Assign) else [n.target]))]
+        in_start = [n for n in writes if source.enclosing_func(n) is seh]
+        gse = cfg_of(seh)
+        branch = [n for n in walk_body(seh) if isinstance(n, ast.If) and "extern" in u(n.test)]
+        from_msg = [n for n in in_start if isinstance(n, ast.Assign) and isinstance(n.value, ast.Attribute) and isinstance(n.value.value, ast.Name) and n.value.value.id == mp]
+        ok = len(in_start) == 1 and len(from_msg) == 1 and bool(branch) and gse.dominated_by_nodes(gse.node_of(branch[0]), [gse.node_of(from_msg[0])]) \
+            and all(source.enclosing_func(n) is seh or source.enclosing_func(n).name == "__init__" for n in writes)
+        chk.ob("O12.2", f"`self.{fl}` is assigned from the StartEngine message before the branch, on every path (never sticky)", ok, in_start[0] if in_start else seh,
+               f"writes in the handler: {[short(n, 50) for n in in_start]}" + ("" if ok else " — a provisioned start after an external one keeps the external flag: StopEngine acknowledges without stopping any node"),
+               key=f"{_M}:MechanicActor.receiveMsg_StartEngine:flag-from-message")
+    else:
+        chk.ob("O12.2", "StopEngine consults the externally-provisioned flag", False, sth if sth is not None else MA.node, "no read of the flag in receiveMsg_StopEngine")
     cr = mech.func("create")
     gcr = cfg_of(cr)
     ext_ifs = [n for n in walk_body(cr) if isinstance(n, ast.If) and isinstance(n.test, ast.Name) and n.test.id == "external"]
@@ -374,12 +402,20 @@ def run(chk):
     stops = source.calls_in(ur, attr="stop_engine")
     if not nst or not stops:
         raise AnchorMissing("NodeMechanicActor.receiveUnrecognizedMessage: NodesStopped send / stop_engine call")
+    clears_all = [n for n in walk_body(ur) if isinstance(n, ast.Assign) and any(is_self_attr(t, "mechanic") for t in n.targets) and source.is_const(n.value) and n.value.value is None]
     for s in nst:
         arm = [t for t, pol in guards(s) if pol and isinstance(t, ast.Call) and dotted(t.func) == "isinstance" and last_attr(t.args[1]) == "StopNodes"]
         chk.ob("O12.5", "NodesStopped only when handling StopNodes", bool(arm), s, "")
-        arm_stops = [c for c in stops if any(t is a for a in arm for t, pol in guards(c))]
+        arm_stops = [c for c in stops if any(t is a and pol for a in arm for t, pol in guards(c))]
         ok = bool(arm_stops) and gur.dominated_by_nodes(gur.node_of(s), [gur.node_of(c) for c in arm_stops])
         chk.ob("O12.5", "NodesStopped after stop_engine()", ok, s, "")
+        ok = len(arm_stops) == 1 and gur.only_after_normal_return(s, arm_stops[0])
+        chk.ob("O12.5", "NodesStopped only when stop_engine() returned (not on its failure edge)", ok, s,
+               "" if ok else "the confirmation is also sent on a path on which stop_engine() raised (finally / handler): the coordinator acknowledges EngineStopped for a host that did not stop",
+               key=f"{_M}:NodeMechanicActor.receiveUnrecognizedMessage:NodesStopped:normal-only")
+        for cl in clears_all:
+            ok = gur.only_after_normal_return(cl, arm_stops[0]) if arm_stops and any(t is a and pol for a in arm for t, pol in guards(cl)) else True
+            chk.ob("O12.5", "mechanic reference kept when stop_engine() failed (the exit request retries the stop)", ok, cl, "", key=f"{_M}:NodeMechanicActor.receiveUnrecognizedMessage:clear:normal-only")
         clears = [n for n in walk_body(ur) if isinstance(n, ast.Assign) and any(is_self_attr(t, "mechanic") for t in n.targets) and source.is_const(n.value) and n.value.value is None]
         after = [gur.node_of(c) for c in clears]
         ok = bool(after) and gur.must_pass(gur.node_of(s), after, normal_only=True)
